@@ -208,17 +208,30 @@ theorem prefAttrs_P (name : Str) (refCls origin : Option Str) (propagated : Opti
 section
 variable (C : DecCodec) (emb : Str → R Atom)
 
+theorem embAttrOk_none (ty : Str) : embAttrOk none ty = true := rfl
+
+theorem embAttrOk_some (c : Char) (cs ty : Str)
+    (h : ((c :: cs) = "instance".toList ∨ (c :: cs) = "object".toList) ∧ ty = "string".toList) :
+    embAttrOk (some (c :: cs)) ty = true := by
+  obtain ⟨h1, h2⟩ := h
+  show ((decide ((c :: cs) = "instance".toList) || decide ((c :: cs) = "object".toList)) &&
+    decide (ty = "string".toList)) = true
+  rw [decide_eq_true h2, Bool.and_true]
+  rcases h1 with h1 | h1
+  · rw [decide_eq_true h1, Bool.true_or]
+  · rw [decide_eq_true h1, Bool.or_true]
+
 theorem decProperty_noemb (t : Xml) (as) (ks : List Xml) (v0 : Val) (pr : Option Bool) (qs : List Qual)
     (hc : checkNode t "PROPERTY" ["TYPE", "NAME"]
       ["CLASSORIGIN", "PROPAGATED", "EmbeddedObject", "EMBEDDEDOBJECT", "xml:lang"]
       (some ["QUALIFIER", "VALUE"]) false = .ok (as, ks))
     (hv : unpackValue C (getAttrD as "TYPE" "") ks = .ok v0)
     (hp : boolAttrOf as "PROPAGATED" "false" = .ok pr) (hq : decQualifiers C ks = .ok qs)
-    (he : embAttrOf as = none) :
+    (he : embAttrOf as = none) (hty : cimTypeOk (getAttrD as "TYPE" "") = true) :
     decProperty C emb t = .ok (.mk (getAttrD as "NAME" "") (getAttrD as "TYPE" "") v0 false none none
       (Xml.attr as "CLASSORIGIN".toList) pr none (dictOfList Qual.name qs)) := by
   unfold decProperty
-  simp only [hc, bind_ok, hv, hp, hq, he, Bool.false_eq_true, if_false, pure_eq_ok]
+  simp only [hc, bind_ok, hv, hp, hq, he, Bool.false_eq_true, if_false, pure_eq_ok, embAttrOk_none, hty, Bool.not_true]
 
 theorem decProperty_emb (t : Xml) (as) (ks : List Xml) (v0 v1 : Val) (pr : Option Bool) (qs : List Qual)
     (c : Char) (cs : Str)
@@ -227,11 +240,13 @@ theorem decProperty_emb (t : Xml) (as) (ks : List Xml) (v0 v1 : Val) (pr : Optio
       (some ["QUALIFIER", "VALUE"]) false = .ok (as, ks))
     (hv : unpackValue C (getAttrD as "TYPE" "") ks = .ok v0)
     (hp : boolAttrOf as "PROPAGATED" "false" = .ok pr) (hq : decQualifiers C ks = .ok qs)
-    (he : embAttrOf as = some (c :: cs)) (hval : embVal emb v0 = .ok v1) :
+    (he : embAttrOf as = some (c :: cs)) (hval : embVal emb v0 = .ok v1)
+    (hea : embAttrOk (some (c :: cs)) (getAttrD as "TYPE" "") = true) (hty : cimTypeOk (getAttrD as "TYPE" "") = true) :
     decProperty C emb t = .ok (.mk (getAttrD as "NAME" "") (getAttrD as "TYPE" "") v1 false none none
       (Xml.attr as "CLASSORIGIN".toList) pr (some (c :: cs)) (dictOfList Qual.name qs)) := by
   unfold decProperty
-  simp only [hc, bind_ok, hv, hp, hq, he, if_true, hval, pure_eq_ok]
+  simp only [hc, bind_ok, hv, hp, hq, he, if_true, hval, pure_eq_ok, hea, hty, Bool.not_true, Bool.false_eq_true,
+    if_false]
 
 theorem decPropertyArray_noemb (t : Xml) (as) (ks : List Xml) (v0 : Val) (pr : Option Bool) (qs : List Qual)
     (asz : Option Nat)
@@ -240,11 +255,12 @@ theorem decPropertyArray_noemb (t : Xml) (as) (ks : List Xml) (v0 : Val) (pr : O
       (some ["QUALIFIER", "VALUE.ARRAY"]) false = .ok (as, ks))
     (hv : unpackValue C (getAttrD as "TYPE" "") ks = .ok v0)
     (hp : boolAttrOf as "PROPAGATED" "false" = .ok pr) (hq : decQualifiers C ks = .ok qs)
-    (ha : arraySizeOf as = .ok asz) (he : embAttrOf as = none) :
+    (ha : arraySizeOf as = .ok asz) (he : embAttrOf as = none) (hty : cimTypeOk (getAttrD as "TYPE" "") = true) :
     decPropertyArray C emb t = .ok (.mk (getAttrD as "NAME" "") (getAttrD as "TYPE" "") v0 true asz none
       (Xml.attr as "CLASSORIGIN".toList) pr none (dictOfList Qual.name qs)) := by
   unfold decPropertyArray
-  simp only [hc, bind_ok, hv, hp, hq, ha, he, Bool.false_eq_true, if_false, pure_eq_ok]
+  simp only [hc, bind_ok, hv, hp, hq, ha, he, Bool.false_eq_true, if_false, pure_eq_ok, embAttrOk_none, hty,
+    Bool.not_true]
 
 theorem decPropertyArray_emb (t : Xml) (as) (ks : List Xml) (v0 v1 : Val) (pr : Option Bool) (qs : List Qual)
     (asz : Option Nat) (c : Char) (cs : Str)
@@ -253,11 +269,13 @@ theorem decPropertyArray_emb (t : Xml) (as) (ks : List Xml) (v0 v1 : Val) (pr : 
       (some ["QUALIFIER", "VALUE.ARRAY"]) false = .ok (as, ks))
     (hv : unpackValue C (getAttrD as "TYPE" "") ks = .ok v0)
     (hp : boolAttrOf as "PROPAGATED" "false" = .ok pr) (hq : decQualifiers C ks = .ok qs)
-    (ha : arraySizeOf as = .ok asz) (he : embAttrOf as = some (c :: cs)) (hval : embVal emb v0 = .ok v1) :
+    (ha : arraySizeOf as = .ok asz) (he : embAttrOf as = some (c :: cs)) (hval : embVal emb v0 = .ok v1)
+    (hea : embAttrOk (some (c :: cs)) (getAttrD as "TYPE" "") = true) (hty : cimTypeOk (getAttrD as "TYPE" "") = true) :
     decPropertyArray C emb t = .ok (.mk (getAttrD as "NAME" "") (getAttrD as "TYPE" "") v1 true asz none
       (Xml.attr as "CLASSORIGIN".toList) pr (some (c :: cs)) (dictOfList Qual.name qs)) := by
   unfold decPropertyArray
-  simp only [hc, bind_ok, hv, hp, hq, ha, he, if_true, hval, pure_eq_ok]
+  simp only [hc, bind_ok, hv, hp, hq, ha, he, if_true, hval, pure_eq_ok, hea, hty, Bool.not_true,
+    Bool.false_eq_true, if_false]
 
 theorem decPropertyReference_null (t : Xml) (as) (ks : List Xml) (pr : Option Bool) (qs : List Qual)
     (hc : checkNode t "PROPERTY.REFERENCE" ["NAME"] ["REFERENCECLASS", "CLASSORIGIN", "PROPAGATED"]
